@@ -15,6 +15,8 @@ import json, os, subprocess
 import vt
 from vt import Infra
 
+FLEX = {"flex_char": ("char", 1, "{1, 2, 3}"), "flex_int": ("int", 4, "{1, 2, 3}"), "flex_long": ("long", 8, "{1, 2, 3}"),
+        "flex_sci": ("struct {char a; int b;}", 8, "{{1, 2}, {3, 4}, {5, 6}}")}
 BFT = {"char": "char", "short": "short", "int": "int", "uint": "unsigned", "long": "long"}
 PRELUDE = r'''
 int printf(const char *, ...);
@@ -31,6 +33,8 @@ static void img(void *p, int n, int *first, int *cnt, int *last) {
 
 def member_decl(mid, j, i):
     n = "m%d" % j
+    if mid.startswith("flex_") and i % 2:
+        return "FT%d %s;" % (i, n)           # the incomplete array type comes from a typedef (see render_layout_case)
     simple = dict(char="char %s;", short="short %s;", int="int %s;", long="long %s;", float="float %s;",
                   double="double %s;", ldouble="long double %s;", ptr="void *%s;", char3="char %s[3];",
                   int2="int %s[2];", s_ci="struct {char a; int b;} %s;", s_c3="struct {char a[3];} %s;",
@@ -62,6 +66,14 @@ def render_layout_case(i, c):
     else:
         decl = "%s S%d { %s }%s;" % (kw, i, body, a)
     T = "%s S%d" % (kw, i)
+    flex = [m for m in c["ms"] if m.startswith("flex_")]
+    tail = ""
+    if flex and i % 2:
+        # an incomplete array type reached through a typedef, used as the flexible array member and, afterwards,
+        # for an array whose size comes from its initializer: the member must not change the typedef's type
+        el, esz, init = FLEX[flex[0]]
+        decl = "typedef %s FT%d[];\n%s\nstatic FT%d fa%d = %s;" % (el, i, decl, i, i, init)
+        tail = ' printf(" t%%d", (int)sizeof(fa%d));' % i
     # declaration form (independent of the layout): the tag may already be known, still incomplete, when the
     # definition (with its leading or trailing attribute list) is reached
     form = (i // 2) % 4
@@ -86,6 +98,8 @@ def render_layout_case(i, c):
         else:
             f.append(' memset(&s, 0, sizeof s); memset(&s.m%d, 255, sizeof s.m%d); img(&s, sizeof s, &a, &b, &c);'
                      ' printf(" o%d:%%d:%%d:%%d:%%d", OFF(%s, m%d), a, b, c);' % (j, j, j, T, j))
+    if tail:
+        f.append(tail)
     f.append(' printf("\\n"); }')
     return decl + "\n" + "\n".join(f) + "\n"
 
@@ -105,6 +119,9 @@ def expect_layout(i, c):
         else:
             # interior padding of nested aggregates is not set by memset of the member? it is: memset fills all bytes
             out.append("o%d:%d:%d:%d:%d" % (j, p["pos"] // 8, p["pos"], p["w"], p["pos"] + p["w"] - 1))
+    flex = [m for m in c["ms"] if m.startswith("flex_")]
+    if flex and i % 2:
+        out.append("t%d" % (3 * FLEX[flex[0]][1]))
     return " ".join(out)
 
 
